@@ -41,6 +41,11 @@ type Hist[S any] struct {
 	Depth int
 	// ElemTimeout: if one transition takes longer, it is reported as a hang and the run stops.
 	ElemTimeout time.Duration
+	// Soft, if set, drains the non-fatal mismatches the harness recorded in s since the last
+	// drain (observer-only mismatches, or mutator mismatches after which the harness
+	// re-synchronised the model with the real object).  They are reported as violations
+	// with their own signature; exploration continues past them.
+	Soft func(s S) []Violation
 	// Release, if set, is called on every state bundle once the explorer is done with it.
 	Release func(s S)
 }
@@ -54,6 +59,7 @@ type succ struct {
 	key  [32]byte
 	desc string
 	hang bool
+	soft []Violation
 }
 
 // Names renders a history.
@@ -106,6 +112,7 @@ func (h *Hist[S]) Explore(r *Report) {
 	var states, transitions, replays int64 = 1, 0, 0
 	maxDepth := 0
 	detChecked := false
+	var perDepth []int
 	for depth := 1; depth <= h.Depth && len(frontier) > 0; depth++ {
 		if r.Expired() {
 			r.Capped(fmt.Sprintf("deadline reached before depth %d (completed depth %d)", depth, depth-1))
@@ -157,6 +164,9 @@ func (h *Hist[S]) Explore(r *Report) {
 								if d != "" {
 									panic("nondeterministic replay: " + d)
 								}
+								if h.Soft != nil {
+									h.Soft(s) // drop what the replayed prefix reported (already reported there)
+								}
 								if d := h.Apply(s, op); d != "" {
 									sc.desc = d
 									return
@@ -164,7 +174,11 @@ func (h *Hist[S]) Explore(r *Report) {
 								// Canon before Check: Check may fill caches of the real object,
 								// replay never runs Check, so the dump must be the pre-Check state.
 								key := sha256.Sum256(h.Canon(s))
-								if d := h.Check(s); d != "" {
+								d = h.Check(s)
+								if h.Soft != nil {
+									sc.soft = h.Soft(s)
+								}
+								if d != "" {
 									sc.desc = d
 									return
 								}
@@ -203,6 +217,10 @@ func (h *Hist[S]) Explore(r *Report) {
 				transitions++
 				replays++
 				nh := append(append([]Op{}, frontier[i].hist...), sc.op)
+				for _, sv := range sc.soft {
+					r.Violate(sv.Sig, sv.Desc, Names(nh))
+					r.Outcome("soft:" + sv.Sig)
+				}
 				if sc.desc != "" {
 					r.Violate(h.sig(nh, sc.desc), sc.desc, Names(nh))
 					r.Outcome("violation")
@@ -246,6 +264,8 @@ func (h *Hist[S]) Explore(r *Report) {
 			break
 		}
 		r.Extra["completed_depth"] = depth
+		perDepth = append(perDepth, len(nextFrontier))
+		r.Extra["new_states_per_depth"] = perDepth
 		frontier = nextFrontier
 	}
 	if len(r.Samples) == 0 && len(frontier) > 0 {
